@@ -40,7 +40,7 @@ def groups(tier):
     take(c03, lambda n: n.startswith('interval') or n.startswith('range'))
     take(c11)
     take(c14, lambda n: n.startswith('hybrid'))
-    take(c04, lambda n: n.startswith('order'))
+    take(c04, lambda n: n.startswith('order') or n == 'identifier-parse')
     take(c16)
     take(c18)
     take(c01)
